@@ -106,7 +106,20 @@ def special_values_family(rnd, first_id, n):
 
 
 def c02_extra(rep, rnd, first_id):
-    return special_values_family(rnd, first_id, 2500 if rep.tier == "thorough" else 150)
+    from harness import absyn as A
+
+    out = special_values_family(rnd, first_id, 2500 if rep.tier == "thorough" else 150)
+    # bit-field runs separated by another member (dynamic, scalar, nested structure): the run behind it starts a fresh unit, and
+    # what is parsed from it goes back into the dump bit for bit (seed S140)
+    split = [t for t in bitfield_family(rnd, False) if any(f["name"] == "mid" for f in t["fields"])]
+    for t in rnd.sample(split, min(len(split), 400 if rep.tier == "thorough" else 50)):
+        mode = {"endian": rnd.choice("<>"), "align": rnd.random() < 0.5, "ptr": 8}
+        scn = {"type": t, "mode": mode, "consts": {}, "defs": A.render(t)}
+        if not codec.load_record(0, scn, True)["loaded"]:
+            continue
+        data = bytes(rnd.choice([0xFF, 0x80, 0x01, rnd.randrange(1, 256)]) for _ in range(3)) + b"\x01\x00" + bytes(rnd.randrange(1, 256) for _ in range(40))
+        out.append(codec.parse_record(first_id + len(out), scn, data, 0, rnd.random() < 0.7, both=True))
+    return out
 
 
 CHECKS["C02"] = CodecCheck(
@@ -241,6 +254,20 @@ def c04_extra(rep, rnd, first_id):
         scn["mode"] = dict(scn["mode"], preload_ptr=r2.choice([w for w in (1, 2, 4, 8) if w != scn["mode"]["ptr"]]))
         start = codec.start_for(r2, scn)
         out.append(codec.enrich(codec.parse_record(first_id + n + 5000 + len(out), scn, codec.gen_input(r2, start, maxlen=90), start, r2.random() < 0.5), sizeof=True))
+    # aligned structures INSIDE packed ones (and the other way round): every separately declared structure has its own align=
+    # setting, so an aligned structure is read and written at positions that are not multiples of its alignment (seed S143)
+    made = 0
+    for _ in range(3000 if rep.tier == "thorough" else 400):
+        if made >= (400 if rep.tier == "thorough" else 60):
+            break
+        scn = codec.gen_scenario(r2, {"null": False, "eof": False, "expr": False, "leb": False, "mixalign": False, "depth": 2,
+                                      "w": (0.35, 0.4, 0.85, 0.88, 0.9)})
+        mixed = codec.mix_alignment(scn, r2)
+        if not mixed:
+            continue
+        made += 1
+        start = codec.start_for(r2, mixed)
+        out.append(codec.enrich(codec.parse_record(first_id + n + 9000 + len(out), mixed, codec.gen_input(r2, start, maxlen=120), start, r2.random() < 0.5), sizeof=True))
     return out
 
 
@@ -367,7 +394,8 @@ def bitfield_family(rnd, thorough):
                     if before is None and after is None and len(ws) >= 2:
                         # a dynamically sized (or any other) member BETWEEN two runs: it ends the open unit, the run behind it starts
                         # a fresh one (seed S122) - definitions that fit only a fresh unit, and ones that straddle only a fresh unit
-                        for mid in (A.t_arr(A.t_char(), A.L_NULL), A.t_leb(False), A.t_int("uint8")):
+                        for mid in (A.t_arr(A.t_char(), A.L_NULL), A.t_leb(False), A.t_int("uint8"),
+                                    A.t_struct("bfin", [A.field("x", A.t_int("uint8"))])):      # a nested structure ends the unit too (seeds S140 / S144)
                             out.append(A.t_struct("BF", [A.field("b0", st, ws[0]), A.field("mid", mid)] + [A.field(f"b{i}", st, w) for i, w in enumerate(ws) if i]))
                     if st["k"] == "enum" and len(ws) > 1:
                         # an enum / flag and its plain base type are the same storage type: they share units
@@ -587,6 +615,15 @@ def c08_extra(rep, rnd, first_id):
             data = bytes(rnd.randrange(256) for _ in range(start)) + bytes([2]) + bytes(rnd.randrange(1, 256) for _ in range(60))
             for compiled in (True, False):
                 out += codec.cut_and_fault_records(first_id + len(out), scn, data, start, compiled, rnd, max_cuts=80, max_faults=4)
+    # `EOF` is only the to-end-of-stream sentinel while nothing else is called EOF: behind a FIELD of that name `data[EOF]` is an
+    # ordinary counted array, and a premature end inside it is an error like everywhere else (seed S146)
+    for elem in ([A.t_char(), A.t_int("uint16"), A.t_int("uint24")] if rep.tier == "thorough" else [A.t_char(), A.t_int("uint16")]):
+        t = A.t_struct("EOFN", [A.field("EOF", u8), A.field("data", A.t_arr(elem, A.L_expr({"k": "id", "name": "EOF"}))), A.field("t", u8)])
+        mode = {"endian": rnd.choice("<>"), "align": False, "ptr": 4}
+        scn = {"type": t, "mode": mode, "consts": {}, "defs": A.render(t, {})}
+        data = bytes([3]) + bytes(rnd.randrange(1, 256) for _ in range(20))
+        for compiled in (True, False):
+            out += codec.cut_and_fault_records(first_id + len(out), scn, data, 0, compiled, rnd, max_cuts=30, max_faults=12)
     # a length field holding an absurd number (corrupted input): the input ends long before - EOFError like for any other
     # premature end, whatever the stream object does when asked for 2^63 bytes (finding F67)
     for elem in [A.t_char(), A.t_int("uint32"), A.t_wchar(), A.t_int("uint24"), A.t_float("double")]:
